@@ -488,6 +488,10 @@ pub fn replay_scenario(_sig: &str, case: &serde_json::Value) -> Option<Result<()
     } else {
         "auto-gc"
     };
+    // the automatic collector is a free-running thread: several attempts
+    let attempts = if scen == "auto-gc" { 8 } else { 1 };
+    let mut result = Ok(());
+    for _ in 0..attempts {
     let out = isolated(300, |w| {
         let mut rep = Report::default();
         match (scen, kind.as_str()) {
@@ -505,8 +509,10 @@ pub fn replay_scenario(_sig: &str, case: &serde_json::Value) -> Option<Result<()
     });
     let mut total = Report::default();
     merge_jobs(&mut total, vec![out], &[format!("replay/{scen}/{kind}")]);
-    Some(match total.viols.first() {
-        Some(v) => Err(format!("{}: {}", v.sig, v.what)),
-        None => Ok(()),
-    })
+    if let Some(v) = total.viols.first() {
+        result = Err(format!("{}: {}", v.sig, v.what));
+        break;
+    }
+    }
+    Some(result)
 }
